@@ -143,6 +143,32 @@ def run(ctx):
                 o.holds(init, init.node, f"{cn}: every self attribute read along __init__ -> create_jdd is definitely assigned first; _jdd and _motif_sizes are set on exit",
                         construct=f"must-assigned at exit: {sorted(s.must)}")
 
+    with ctx.obligation("C06.1", "loaders keep no mutable state shared between instances") as o:
+        bad = 0
+        for cn in ["JointDegree"] + list(LOADERS.values()):
+            ci = prog.cls(cn)
+            for a, v in ci.class_attrs.items():
+                if isinstance(v, (ast.Dict, ast.List, ast.Set)) or (isinstance(v, ast.Call) and txt(v.func) in ("dict", "list", "set", "defaultdict", "Counter")):
+                    writers = []
+                    for c2 in [ci] + prog.subclasses(ci):
+                        for m in c2.methods.values():
+                            for n in astx.walk_fn(m.node):
+                                if isinstance(n, (ast.Assign, ast.AugAssign)):
+                                    for t in (n.targets if isinstance(n, ast.Assign) else [n.target]):
+                                        if isinstance(t, ast.Subscript) and astx.self_attr(t.value) == a:
+                                            writers.append((m, n))
+                                if isinstance(n, ast.Call) and isinstance(n.func, ast.Attribute) and n.func.attr in astx.MUTATOR_METHODS and astx.self_attr(n.func.value) == a:
+                                    writers.append((m, n))
+                    rebinds = any(astx.self_attr(t) == a for c2 in [ci] + prog.subclasses(ci) for m in c2.methods.values() for n in astx.walk_fn(m.node)
+                                  if isinstance(n, (ast.Assign, ast.AnnAssign)) for t in (n.targets if isinstance(n, ast.Assign) else [n.target]))
+                    if writers and not rebinds:
+                        bad += 1
+                        m, n = writers[0]
+                        o.violated(m, n, f"`{cn}.{a}` is a class-level mutable container written through `self.{a}`: it is shared by every {cn} in the process, so a later loader "
+                                         "silently re-uses values computed from an earlier loader's inputs")
+        if not bad:
+            o.holds(None, None, "no class-level mutable container is written through self in the loader classes", construct="class attribute scan")
+
     with ctx.obligation("C06.2", "manual loader exposes the given dictionary untouched", floor=2) as o:
         ci = prog.cls("JointDegreeManual")
         init = prog.method(ci, "__init__")
